@@ -88,6 +88,175 @@ Definition route (reg : Z -> option rfn) (dflt : option rfn) (p : param) (ty : Z
   | POther _ => BadRouteParam
   end.
 
+(* ---- route functions as PROGRAMS: what a rule reads, when, and what it calls ----
+   [rfn] above says what a rule answers.  To talk about calls that overlap (several service
+   goroutines inside the route layer at once) or nest (a rule that itself routes before it
+   reads its own parameter) a rule is an arbitrary interaction tree: it reads keys of the
+   parameter it was handed, type-switches on it, calls RouteService.Route again, reaches
+   scheduling points (anything that lets another goroutine run: a lock, a channel, a
+   pre-emption) and finally returns a name or panics.  Continuations are arbitrary Coq
+   functions, so this is every deterministic Go route function that touches the routing
+   layer through these calls only. *)
+Inductive kind := KNil | KSess | KMap.
+
+Definition kind_of (p : rparam) : kind :=
+  match p with RPNil => KNil | RPSess _ => KSess | RPMap _ => KMap end.
+
+Inductive prog :=
+| PRet (r : res)                                  (* return / panic *)
+| PGet (k : Z) (c : option Z -> prog)             (* v := p.Get(k, nil); on a nil interface: panic *)
+| PKind (c : kind -> prog)                        (* switch p.(type) *)
+| PCall (ty : Z) (p : param) (c : Z -> prog)      (* n := RouteService.Route(ty, p)  (nested) *)
+| PYield (c : prog).                              (* a scheduling point *)
+
+Definition rule := Z -> prog.                     (* service type -> the program that runs *)
+
+(* what the route layer hands to a rule for a caller's parameter (None: no rule is consulted) *)
+Definition to_rparam (p : param) : option rparam :=
+  match p with
+  | PNil => Some RPNil
+  | PSess d => Some (RPSess d)
+  | PMap d => Some (RPMap d)
+  | PStr _ | POther _ => None
+  end.
+
+(* what one rule invocation saw of its parameter and of the calls it made; [depth] 0 is the
+   rule consulted for the caller's own call, depth d+1 a rule consulted by a call made at depth d *)
+Inductive seen :=
+| VKind (depth ty : Z) (k : kind)                 (* the rule for [ty] looked at the kind of its parameter *)
+| VGet (depth k : Z) (v : option Z)               (* p.Get(k) returned v *)
+| VCall (depth ty n : Z).                         (* its nested Route(ty, _) returned n *)
+
+Definition sdepth (e : seen) : Z :=
+  match e with VKind d _ _ | VGet d _ _ | VCall d _ _ => d end.
+
+Definition pickr (reg dflt : option rule) : option rule :=
+  match reg with Some f => Some f | None => dflt end.
+
+Definition name_of (r : res) : Z := match r with RName n => n | RPanic => empty end.
+
+Section Progs.
+  Variable rules : Z -> option rule.              (* RouteService.routes, ARBITRARY *)
+  Variable dflt : option rule.                    (* defaultRouteFunc *)
+
+  (* RouteService.Route up to the point where a rule starts running: an immediate answer, or
+     the rule's program together with the parameter wrapper made FOR THIS CALL *)
+  Definition enter (ty : Z) (p : param) : Z + (rparam * prog) :=
+    match p with
+    | PStr n => inl n
+    | POther _ => inl BadRouteParam
+    | _ =>
+        match to_rparam p, pickr (rules ty) dflt with
+        | Some rp, Some r => inr (rp, r ty)
+        | _, _ => inl MissRouteFunc
+        end
+    end.
+
+  Definition pre {A} (l : list seen) (x : option (A * list seen)) : option (A * list seen) :=
+    match x with Some (a, t) => Some (a, l ++ t) | None => None end.
+
+  (* one rule invocation at nesting depth d, given the meaning [nest] of the calls it makes *)
+  Fixpoint evalp (nest : Z -> Z -> param -> option (Z * list seen)) (d : Z) (pc : prog)
+      (ty : Z) (rp : rparam) : option (res * list seen) :=
+    match pc with
+    | PRet r => Some (r, [])
+    | PGet k c =>
+        match rp with
+        | RPNil => Some (RPanic, [])
+        | RPSess dd | RPMap dd => pre [VGet d k (dget k dd)] (evalp nest d (c (dget k dd)) ty rp)
+        end
+    | PKind c => pre [VKind d ty (kind_of rp)] (evalp nest d (c (kind_of rp)) ty rp)
+    | PCall cty p c =>
+        match nest (d + 1) cty p with
+        | None => None
+        | Some (n, t) => pre (t ++ [VCall d cty n]) (evalp nest d (c n) ty rp)
+        end
+    | PYield c => evalp nest d c ty rp
+    end.
+
+  (* RouteService.Route(ty, p) entered at depth d: the name it returns and everything the rules
+     consulted for it saw.  [fuel] bounds the NESTING depth only; None = rules that consult each
+     other deeper than that (in Go: unbounded recursion, a fatal stack overflow - not a routing
+     decision at all) *)
+  Fixpoint eval (fuel : nat) (d : Z) (ty : Z) (p : param) : option (Z * list seen) :=
+    match enter ty p with
+    | inl n => Some (n, [])
+    | inr (rp, pc) =>
+        match fuel with
+        | O => None
+        | S f =>
+            match evalp (eval f) d pc ty rp with
+            | Some (r, t) => Some (name_of r, t)
+            | None => None
+            end
+        end
+    end.
+
+  (* ---- the same, one step at a time, for several goroutines ---- *)
+  Inductive wait := W (ty : Z) (rp : rparam) (c : Z -> prog) (cty : Z).
+
+  Inductive thread :=
+  | TRun (ty : Z) (rp : rparam) (pc : prog) (stk : list wait) (tr : list seen)
+        (* the running rule: its type, ITS OWN parameter, the rest of its program; the rules
+           waiting for it (innermost first); what has been seen so far *)
+  | TDone (n : Z) (tr : list seen).
+
+  (* a rule returned n (doRoute has already turned a panic into "") *)
+  Definition ret (n : Z) (stk : list wait) (tr : list seen) : thread :=
+    match stk with
+    | [] => TDone n tr
+    | W ty rp c cty :: s => TRun ty rp (c n) s (tr ++ [VCall (Z.of_nat (length s)) cty n])
+    end.
+
+  Definition tstep (t : thread) : thread :=
+    match t with
+    | TDone _ _ => t
+    | TRun ty rp pc stk tr =>
+        let d := Z.of_nat (length stk) in
+        match pc with
+        | PRet r => ret (name_of r) stk tr
+        | PGet k c =>
+            match rp with
+            | RPNil => ret empty stk tr
+            | RPSess dd | RPMap dd => TRun ty rp (c (dget k dd)) stk (tr ++ [VGet d k (dget k dd)])
+            end
+        | PKind c => TRun ty rp (c (kind_of rp)) stk (tr ++ [VKind d ty (kind_of rp)])
+        | PCall cty p c =>
+            match enter cty p with
+            | inl n => TRun ty rp (c n) stk (tr ++ [VCall d cty n])
+            | inr (rp2, pc2) => TRun cty rp2 pc2 (W ty rp c cty :: stk) tr
+            end
+        | PYield c => TRun ty rp c stk tr
+        end
+    end.
+
+  Definition start (ty : Z) (p : param) : thread :=
+    match enter ty p with
+    | inl n => TDone n []
+    | inr (rp, pc) => TRun ty rp pc [] []
+    end.
+
+  Fixpoint iter (k : nat) (t : thread) : thread :=
+    match k with O => t | S j => iter j (tstep t) end.
+
+  (* several goroutines, one call each; a schedule names the goroutine that moves next *)
+  Fixpoint pstep (i : nat) (pool : list thread) : list thread :=
+    match pool, i with
+    | [], _ => []
+    | t :: r, O => tstep t :: r
+    | t :: r, S j => t :: pstep j r
+    end.
+
+  Definition prun (sched : list nat) (pool : list thread) : list thread :=
+    fold_left (fun pl i => pstep i pl) sched pool.
+
+  Fixpoint ncount (i : nat) (l : list nat) : nat :=
+    match l with [] => O | x :: r => ((if Nat.eqb x i then 1 else 0) + ncount i r)%nat end.
+End Progs.
+
+(* nesting depth the executable model follows (the harness refuses deeper scripts) *)
+Definition NEST_FUEL : nat := 8.
+
 (* ---- cluster views ---- *)
 Inductive node := Node (id addr state : Z) (svcs : list (list Z)).
 Definition view := list node.
@@ -148,6 +317,9 @@ Definition default_route (v : view) (ty : Z) : Z :=
 
 Definition app_default (v : view) : rfn := fun ty _ => RName (default_route v ty).
 
+(* the same as a program: it never looks at its parameter and calls nothing *)
+Definition app_rule (v : view) : rule := fun ty => PRet (RName (default_route v ty)).
+
 (* node/app.RoutePID: [] = nil *)
 Definition route_pid (reg : Z -> option rfn) (dflt : option rfn) (v : view) (ty : Z) (p : param)
   : list pid :=
@@ -189,10 +361,39 @@ Definition front_call (v : view) (front m : Z) : outcome :=
   | c => OSend c true SYS m
   end.
 
-(* ---- the state machine, for any representation F of route functions ---- *)
+(* ---- calls made side by side from several service goroutines ---- *)
+Inductive pcall :=
+| CRoute (ty : Z) (p : param)           (* RouteService.Route(ty, p) *)
+| CRoutePID (ty : Z) (p : param)        (* app.RoutePID(ty, p) *)
+| CRequest (r : list Z) (p : param)     (* app.Request(ns_i, r, p, msg, cb) *)
+| CNotify (r : list Z) (p : param).     (* app.Notify(ns_i, r, p, msg) *)
+
+(* the (type, parameter) a call hands to the route layer; None when it never gets there *)
+Definition call_key (c : pcall) : option (Z * param) :=
+  match c with
+  | CRoute ty p | CRoutePID ty p => Some (ty, p)
+  | CRequest r p | CNotify r p =>
+      match r with
+      | [t; _; _] => if t =? empty then None else Some (t, p)
+      | _ => None
+      end
+  end.
+
+(* everything the rules consulted for one call saw *)
+Definition call_trace (rules : Z -> option rule) (dflt : option rule) (c : pcall)
+  : option (list seen) :=
+  match call_key c with
+  | None => Some []
+  | Some (ty, p) => option_map snd (eval rules dflt NEST_FUEL 0 ty p)
+  end.
+
+(* ---- the state machine, for any representation F of route functions ----
+   interp f  : what the function answers (Z -> rparam -> res)
+   pinterp f : how it gets there (reads, nested calls, scheduling points) *)
 Section Machine.
   Variable F : Type.
   Variable interp : F -> rfn.
+  Variable pinterp : F -> rule.
 
   Inductive dmode :=
   | DApp              (* node/app's defaultRoute (installed by its init) *)
@@ -212,7 +413,10 @@ Section Machine.
   | OQuery (front : Z)                  (* app.QuerySession(ns, front, id, cb) *)
   | OKick (front : Z)                   (* app.Kick(ns, front, id, cb) *)
   | OWork (ty : Z)                      (* names of app.GetWorkServices(ty) *)
-  | OList (ty : Z).                     (* names of app.GetServices(ty) *)
+  | OList (ty : Z)                      (* names of app.GetServices(ty) *)
+  | OCalls (cs : list pcall) (sched : list Z).
+      (* one call per service goroutine, all in flight together; [sched] is the order in which
+         the goroutines are let run from one scheduling point to the next *)
 
   (* what the model says an operation shows *)
   Inductive mout :=
@@ -220,7 +424,9 @@ Section Machine.
   | MName (n : Z)
   | MPid (cands : list pid)             (* [] = nil, else one of cands *)
   | MOut (o : outcome)
-  | MNames (l : list Z).
+  | MNames (l : list Z)
+  | MCalls (l : list (mout * option (list seen))).
+      (* per call: what it shows and what its rules saw (None: nesting beyond NEST_FUEL) *)
 
   Definition init : st := St [] DApp [].
 
@@ -234,11 +440,30 @@ Section Machine.
     | DFn f => Some (interp f)
     end.
 
-  (* what an operation shows: a function of the registered functions, the default and the
+  Definition rules_of (s : st) : Z -> option rule :=
+    fun ty => option_map pinterp (aget ty (s_fns s)).
+
+  Definition pdflt_of (s : st) : option rule :=
+    match s_dflt s with
+    | DApp => Some (app_rule (s_view s))
+    | DNone => None
+    | DFn f => Some (pinterp f)
+    end.
+
+  Definition op_of_call (c : pcall) : op :=
+    match c with
+    | CRoute ty p => ORoute ty p
+    | CRoutePID ty p => ORoutePID ty p
+    | CRequest r p => ORequest r p
+    | CNotify r p => ONotify r p
+    end.
+
+  (* what a single call shows: a function of the registered functions, the default and the
      CURRENT view only *)
-  Definition out (reg : Z -> option rfn) (dflt : option rfn) (v : view) (o : op) : mout :=
+  Definition out1 (reg : Z -> option rfn) (dflt : option rfn) (v : view) (o : op) : mout :=
     match o with
     | OReg _ _ | ODefault _ | OUpdate _ => MUnit
+    | OCalls _ _ => MCalls []          (* not a single call: see [out] *)
     | ORoute ty p => MName (route reg dflt p ty)
     | ORoutePID ty p => MPid (route_pid reg dflt v ty p)
     | ORequest r p => MOut (call reg dflt v true r p)
@@ -247,6 +472,16 @@ Section Machine.
     | OKick f => MOut (front_call v f KICK)
     | OWork ty => MNames (map it_name (work_list v ty))
     | OList ty => MNames (map it_name (type_list v ty))
+    end.
+
+  (* calls in flight together: EACH shows exactly what it shows when made alone, and its rules
+     see exactly what they see when it is made alone - whatever the schedule *)
+  Definition out (reg : Z -> option rfn) (dflt : option rfn) (rules : Z -> option rule)
+      (pdflt : option rule) (v : view) (o : op) : mout :=
+    match o with
+    | OCalls cs _ =>
+        MCalls (map (fun c => (out1 reg dflt v (op_of_call c), call_trace rules pdflt c)) cs)
+    | _ => out1 reg dflt v o
     end.
 
   Definition next (s : st) (o : op) : st :=
@@ -259,7 +494,7 @@ Section Machine.
     end.
 
   Definition step (s : st) (o : op) : st * mout :=
-    (next s o, out (reg_of s) (dflt_of s) (s_view s) o).
+    (next s o, out (reg_of s) (dflt_of s) (rules_of s) (pdflt_of s) (s_view s) o).
 
   Fixpoint run_from (s : st) (ops : list op) : st * list mout :=
     match ops with
@@ -293,19 +528,29 @@ Arguments OQuery {F} front.
 Arguments OKick {F} front.
 Arguments OWork {F} ty.
 Arguments OList {F} ty.
+Arguments OCalls {F} cs sched.
 Arguments init {F}.
 Arguments reg_of {F} interp s ty.
 Arguments dflt_of {F} interp s.
-Arguments out {F} reg dflt v o.
+Arguments rules_of {F} pinterp s ty.
+Arguments pdflt_of {F} pinterp s.
+Arguments op_of_call {F} c.
+Arguments out1 {F} reg dflt v o.
+Arguments out {F} reg dflt rules pdflt v o.
 Arguments next {F} s o.
-Arguments step {F} interp s o.
-Arguments run_from {F} interp s ops.
-Arguments run {F} interp ops.
-Arguments final {F} interp ops.
-Arguments obs_at {F} interp h o.
+Arguments step {F} interp pinterp s o.
+Arguments run_from {F} interp pinterp s ops.
+Arguments run {F} interp pinterp ops.
+Arguments final {F} interp pinterp ops.
+Arguments obs_at {F} interp pinterp h o.
 
 (* ---- scripted route functions: the representation the harness uses ----
    Go (harness/c07/script.go) builds a real route.RouteFunc from the same data. *)
+Inductive act :=
+| AYield                       (* a scheduling point: lets the other goroutines run *)
+| ACall (ty : Z) (p : param)   (* route.GetRouteService().Route(ty, p); the answer is only recorded *)
+| AGet (k : Z).                (* p.Get(key k, nil); the value is only recorded *)
+
 Inductive script :=
 | SConst (r : res)
     (* ignores its arguments *)
@@ -314,10 +559,14 @@ Inductive script :=
        absent key -> nokey; value found in tbl -> that result; else miss *)
 | SKind (rnil rsess rmap : res)
     (* type switch on p: nil / *session.FrontSession / *route.MapParam *)
-| STy (tbl : list (Z * res)) (miss : res).
+| STy (tbl : list (Z * res)) (miss : res)
     (* depends on the service type only (a default function shared by all types) *)
+| SPre (pre : list act) (s : script)
+    (* first does [pre], then behaves as s *).
 
-Definition interp_script (s : script) : rfn := fun ty p =>
+Definition is_get (a : act) : bool := match a with AGet _ => true | _ => false end.
+
+Fixpoint interp_script (s : script) : rfn := fun ty p =>
   match s with
   | SConst r => r
   | SKey k tbl miss nokey =>
@@ -331,7 +580,38 @@ Definition interp_script (s : script) : rfn := fun ty p =>
       end
   | SKind a b c => match p with RPNil => a | RPSess _ => b | RPMap _ => c end
   | STy tbl miss => match dget ty tbl with Some r => r | None => miss end
+  | SPre pre s' =>
+      (* Get on the nil IRouteParam panics before s' is reached *)
+      match p with
+      | RPNil => if existsb is_get pre then RPanic else interp_script s' ty p
+      | _ => interp_script s' ty p
+      end
   end.
+
+(* the same functions as programs; every scripted function first looks at the kind of its
+   parameter (the Go closure records it) *)
+Fixpoint pre_prog (pre : list act) (k : prog) : prog :=
+  match pre with
+  | [] => k
+  | AYield :: r => PYield (pre_prog r k)
+  | ACall cty p :: r => PCall cty p (fun _ => pre_prog r k)
+  | AGet key :: r => PGet key (fun _ => pre_prog r k)
+  end.
+
+Fixpoint body (s : script) (ty : Z) : prog :=
+  match s with
+  | SConst r => PRet r
+  | SKey k tbl miss nokey =>
+      PGet k (fun v => match v with
+                       | None => PRet nokey
+                       | Some x => PRet (match dget x tbl with Some r => r | None => miss end)
+                       end)
+  | SKind a b c => PKind (fun kd => PRet (match kd with KNil => a | KSess => b | KMap => c end))
+  | STy tbl miss => PRet (match dget ty tbl with Some r => r | None => miss end)
+  | SPre pre s' => pre_prog pre (body s' ty)
+  end.
+
+Definition prog_of_script (s : script) : rule := fun ty => PKind (fun _ => body s ty).
 
 (* ---- what the harness observes on the real code ---- *)
 Inductive obs :=
@@ -340,4 +620,7 @@ Inductive obs :=
 | BPid (p : option pid)
 | BEvents (l : list event)
 | BNames (l : list Z)
-| BPanic.                          (* a panic escaped the call (the model never allows it) *)
+| BPanic                           (* a panic escaped the call (the model never allows it) *)
+| BCalls (l : list (obs * list seen)).
+    (* per call of an OCalls: its own observation and, in order, what each rule invocation
+       made for it was handed / read / got back *)
